@@ -1,7 +1,7 @@
 """C08 - scripts can read but never alter interpreter-owned (str-keyed) cache values."""
 from __future__ import annotations
 import copy
-from .. import env, hyp, gen, optable as O, refasm as R, render
+from .. import env, hyp, gen, optable as O, refasm as R, render, monitors
 from ..util import headroom
 from hypothesis import strategies as st
 
@@ -305,6 +305,9 @@ def emb_cache(draw):
 
 
 def _one(ctx, script, emb, case):
+    if not monitors.within_budget([script], {k: v for k, v in emb.items() if isinstance(k, str)}):
+        ctx.count('skipped:work-explodes (step budget)')
+        return
     fails, info = evaluate(script, emb)
     nt = info.get('spelled') or info.get('writes', 0) >= 3
     ctx.case((script, emb), nt)
